@@ -98,12 +98,13 @@ Definition vec_times (pi : Q * Q) (P : (Q * Q) * (Q * Q)) : Q * Q :=
   let '(pu, pd) := pi in let '((a, b), (c, d)) := P in (pu * a + pd * c, pu * b + pd * d).
 
 (* ---------------------------------------------------------------------------------------------------------- *)
-(* finite pmfs on consecutive integers off, off+1, ... as lists; convolution = polynomial product *)
+(* finite pmfs on consecutive integers off, off+1, ... as lists; convolution = polynomial product.
+   [Qred] only normalises the representation of the sum (Qred x == x); without it vm_compute blows up on unreduced fractions *)
 Fixpoint padd (a b : list Q) : list Q :=
   match a, b with
   | [], _ => b
   | _, [] => a
-  | x :: a', y :: b' => (x + y) :: padd a' b'
+  | x :: a', y :: b' => Qred (x + y) :: padd a' b'
   end.
 Fixpoint conv (a b : list Q) : list Q :=
   match a with [] => [] | x :: a' => padd (map (Qmult x) b) (0 :: conv a' b) end.
